@@ -1500,6 +1500,22 @@ func checkPadding(r *Report, a *Analysis, sc *Scope, rule string, strict bool) {
 			sort.Strings(extra)
 			c4 := fmt.Sprintf("%s: a padding count in 1..len is accepted", p.FnName(fn))
 			r.Check(len(extra) == 0, rule, c4, p.Pos(fn.Pos()), "no further reject condition over the buffer's length or padding byte", "a well-formed padding is still refused by "+strings.Join(extra, ", "))
+			// row 5: what is handed back is the buffer without its padding and nothing else: the prefix slice of the
+			// parameter itself (trimming, filtering or copying part of it changes plaintexts that end in the trimmed bytes)
+			if _, inlineStrip := bufOf[fn]; !inlineStrip {
+				for _, ret := range fc.Returns() {
+					if len(ret.Results) != 2 || !isNilConst(Resolve(ret.Results[1])) {
+						continue
+					}
+					v := Resolve(ret.Results[0])
+					okP := false
+					if sl, ok := v.(*ssa.Slice); ok && sl.X == ssa.Value(fn.Params[0]) && sl.Low == nil && sl.High != nil {
+						okP = true
+					}
+					c5 := fmt.Sprintf("%s: the plaintext returned is the buffer minus its padding", p.FnName(fn))
+					r.Check(okP, rule, c5, p.InstrPos(ret), "buf[:len(buf)-pad]", "the stripper returns "+fc.AP(v)+", not the prefix of its buffer: bytes of the plaintext other than the padding are removed or rewritten")
+				}
+			}
 		}
 	}
 }
